@@ -53,6 +53,9 @@ func prepareTable(c *core.Ctx, prep *ssa.Function) (rs rows, runs int, undecided
 						return nil
 					}
 					if types.IsInterface(typ) {
+						if n := core.NamedOf(typ); n != nil && !n.Obj().Exported() && n.Obj().Pkg() != nil && core.InScopePath(n.Obj().Pkg().Path()) {
+							return absint.NewTok("delegate:"+name, "delegate") // the delegate behind a narrowed view of the package's own
+						}
 						return reg
 					}
 					if p, ok := typ.Underlying().(*types.Pointer); ok {
@@ -261,10 +264,10 @@ type prepareOracle struct {
 func (o *prepareOracle) Call(ip *absint.Interp, site ssa.CallInstruction, args []absint.Value) (absint.Value, bool) {
 	com := site.Common()
 	cal := com.StaticCallee()
-	if cal != nil && len(args) > 0 {
+	if (cal != nil || com.IsInvoke()) && len(args) > 0 {
 		if d, ok := args[0].(*absint.Tok); ok && d.Class == "delegate" {
-			sig := cal.Signature
-			for i := 1; i < len(args); i++ {
+			sig := com.Signature()
+			for i := 1; i < len(args) && i-1 < sig.Params().Len(); i++ {
 				pt := sig.Params().At(i - 1).Type()
 				kind := ""
 				et := pt
